@@ -337,6 +337,23 @@ def run(ctx):
                 got[v[0]] = p.ret[2]
         ctx.check(got == wantb, "C12.count", f"C12.count:{bound}", w.where(fb), bad_msg=f"{got}")
 
+    # the range conversions build the same conditions the string forms parse to: `N..` is `>=N`, `..N` is `<N`, `..=N` is `<=N`, a bare count is `==N`
+    CONV = {"js_int::uint::UInt": ("Eq", "x"), "core::ops::range::RangeFrom<js_int::uint::UInt>": ("Ge", "x.start"),
+            "core::ops::range::RangeTo<js_int::uint::UInt>": ("Lt", "x.end"), "core::ops::range::RangeToInclusive<js_int::uint::UInt>": ("Le", "x.end")}
+    n_conv = 0
+    dxc = D.Dex(w.lookup, adt_discr=w.adt_discr, inline=lambda n: "RoomMemberCountIs::" in n or "{closure" in n, ctors=w.ctors)
+    for k in sorted(w.fn_index):
+        m_ = re.fullmatch(r"<" + re.escape(PU) + r"condition::room_member_count_is::RoomMemberCountIs as core::convert::From<(.*)>>::from", k)
+        if not m_ or m_.group(1) not in CONV:
+            continue
+        n_conv += 1
+        op, cnt = CONV[m_.group(1)]
+        rets = {D.show(p.ret) for p in dxc.paths(w.fn(k), [D.sym("x")]) if p.kind == "ret"}
+        want_r = f"RoomMemberCountIs::RoomMemberCountIs(prefix=ComparisonOperator::{op}, count={cnt})"
+        ctx.check(rets == {want_r}, "C12.count", f"C12.count:from:{m_.group(1).split('range::')[-1].split('<')[0].split('::')[-1]}", w.where(w.fn(k)),
+                  bad_msg=f"RoomMemberCountIs::from({m_.group(1).rsplit('::', 2)[-2] if '<' in m_.group(1) else 'UInt'}) builds {sorted(rets)}, not {want_r}: the "
+                          f"condition built from a range does not hold at the range's own boundary")
+    ctx.floor("range conversions of RoomMemberCountIs", n_conv, 4)
     ctx.rule("C12.escape", "FlattenedJson: escape_key replaces `\\\\` before `.` (the reverse order would double the backslash that escapes a dot); nested paths are joined with a bare `.`")
     from . import panic_common as PC
     f = w.fn(PU + "condition::flattened_json::escape_key")
